@@ -37,7 +37,7 @@ def gen_line(rng, inject=False, product=False):
     exp_product = exp_version = None
     if product:
         fmt, exp_product, pats = rng.choice(PRODUCTS)
-        exp_version = '%d.%d' % (rng.randint(0, 12), rng.randint(0, 99)) + rng.choice(['', '.%d' % rng.randint(0, 20)])
+        exp_version = '%d.%d' % (rng.randint(0, 12), rng.randint(0, 99)) + rng.choice(['', '', '.%d' % rng.randint(0, 20), '.%d.%d' % (rng.randint(0, 20), rng.randint(0, 120))])
         if rng.random() < .2:
             exp_version = '%d.%d' % (rng.randint(2011, 2024), rng.randint(50, 90))
         token = fmt % exp_version + (rng.choice(pats) if pats else '')
